@@ -16,6 +16,7 @@ mod c19;
 mod cxxharness;
 mod c14;
 mod c07;
+mod c15x;
 mod backhalf;
 pub mod compile;
 
